@@ -97,10 +97,19 @@ def run(tier, seed):
         if sp_md[False] == sp_md[True] or 'use="encryption"' not in sp_md[True]:
             # metadata generation wrote the key without a use: then every published key is usable for encryption
             sp_md[False] = None
+        # an SP that publishes TWO encryption certificates (key rollover); the test certificates of the repository are long expired,
+        # which the library does not hold against them
+        two = sp_conf({}, 'sp', False, False, True)
+        two['encryption_keypairs'].append({'key_file': os.path.join(keys, pairs['other'][0]), 'cert_file': os.path.join(keys, pairs['other'][1])})
+        sp_md['two'] = str(entity_descriptor(SPConfig().load(two, metadata_construction=True)))
         idps = {}
-        for published in (True, False):
+        for published in (True, False, 'two'):
             if sp_md[published] is not None:
-                idps[published] = Server(config=IdPConfig().load(idp_conf({'inline': [sp_md[published]]})))
+                if os.path.exists(os.path.join(tmp, 'subject.db')):
+                    pass
+                conf = idp_conf({'inline': [sp_md[published]]})
+                conf['service']['idp']['subject_data'] = os.path.join(tmp, 'subject_%s.db' % published)
+                idps[published] = Server(config=IdPConfig().load(conf))
         sps = {}
 
         def sp_for(pair, want_resp, want_ass):
@@ -110,9 +119,10 @@ def run(tier, seed):
             return sps[k]
         flags = [False, True]
         self_contained = [True] if tier == 'quick' else [True, False]
-        grid = itertools.product(flags, flags, flags, ['none', 'advice', 'pefim'], self_contained, ['metadata', 'given', 'nowhere'])
+        grid = itertools.product(flags, flags, flags, ['none', 'advice', 'pefim'], self_contained,
+                                 ['metadata', 'metadata-two-certificates', 'given', 'nowhere'])
         for sign_resp, sign_ass, enc_ass, advice, selfc, cert_from in grid:
-            published = cert_from == 'metadata'
+            published = 'two' if cert_from == 'metadata-two-certificates' else cert_from == 'metadata'
             if published not in idps:
                 continue
             idp = idps[published]
@@ -140,7 +150,7 @@ def run(tier, seed):
                 violations.append({'name': 'bounded[issue-roundtrip:build]', 'case': label,
                                    'what': 'the IdP could not build the response: %r' % (e,)})
                 continue
-            has_cert = cert_from in ('metadata', 'given')
+            has_cert = cert_from in ('metadata', 'metadata-two-certificates', 'given')
             # ---- C17, IdP side: nothing of an assertion that was to be encrypted is readable in the emitted text
             if has_cert and enc_ass:
                 leaked = [s for s in [SUBJECT] + [v for vals in IDENTITY.values() for v in vals] if _occurs(s, xml)] + \
@@ -179,10 +189,17 @@ def run(tier, seed):
                 problems.append('subject read %r, asserted %r' % (getattr(ar.name_id, 'text', None), SUBJECT))
             if ar.in_response_to != rid:
                 problems.append('InResponseTo read %r, sent %r' % (ar.in_response_to, rid))
-            if ar.issuer() != IDP_ID:
-                problems.append('issuer read %r' % (ar.issuer(),))
-            info = ar.authn_info()
-            if not info or info[0][0] != PASSWORDPROTECTEDTRANSPORT:
+            try:
+                iss = ar.issuer()
+            except Exception as e:
+                iss = 'error %r' % (e,)
+            if iss != IDP_ID:
+                problems.append('issuer read %r' % (iss,))
+            try:
+                info = ar.authn_info()
+            except Exception as e:
+                info = 'error %r' % (e,)
+            if not info or isinstance(info, str) or info[0][0] != PASSWORDPROTECTEDTRANSPORT:
                 problems.append('authentication context read %r' % (info,))
             for pb in problems:
                 violations.append({'name': 'bounded[issue-roundtrip:identity]', 'case': label, 'what': pb})
@@ -213,7 +230,7 @@ def run(tier, seed):
         shutil.rmtree(tmp, ignore_errors=True)
     return {'name': 'issue_roundtrip',
             'label': 'BOUNDED (IdP signing / encryption combinations read back by the SP, with a stand-in for xmlsec1; not a proof)',
-            'bound': '2 sign_response x 2 sign_assertion x 2 encrypt_assertion x 3 advice modes x %d self-contained settings x 3 certificate '
+            'bound': '2 sign_response x 2 sign_assertion x 2 encrypt_assertion x 3 advice modes x %d self-contained settings x 4 certificate '
                      'sources, one identity; stand-in tool, not xmlsec1' % len(self_contained),
             'evaluations': n, 'unsupported_combinations_not_judged': unsupported, 'violations': violations[:30]}
 
